@@ -147,7 +147,7 @@ fn check(acc: &mut Acc, case: u64, sc: &Scenario, inj: &Injected, out: &Outcome,
         viol(acc, format!("{} still pending at the far virtual deadline (1 h after every other activity stopped)", out.hung.join(", ")));
         return;
     }
-    if !out.fault_fired {
+    if !out.fault_fired || (sc.post_fault_probe && sc.drop_handles_at.is_none() && !out.probe_ran) {
         acc.inc("fault_not_reached");
         return;
     }
